@@ -136,7 +136,7 @@ def _gen_built(rng):
         prog = [rng.randrange(2**31), rng.randint(3, 24), rng.choice(PROG_FAMILIES)]
     return {
         "kind": "built", "seed": rng.randrange(10**6), "size": rng.randint(1, 4), "prog": prog,
-        "muts": [[rng.choice(["node", "order", "delnode", "insert", "meta", "reqs", "polycall"]), rng.randrange(10**6)] for _ in range(rng.randint(0, 5))],
+        "muts": [[rng.choice(["node", "order", "delnode", "insert", "meta", "reqs", "polycall", "latecall"]), rng.randrange(10**6)] for _ in range(rng.randint(0, 5))],
         "probe": rng.randrange(6) if rng.random() < 0.5 else None,
     }
 
@@ -207,7 +207,31 @@ def _built_hugr(spec):
             extra.append(h.add_node(ops.Custom(f"reqs{sd}", signature=sig, extension="verif", args=[tys.TypeTypeArg(sig)]), p))
         elif kind == "polycall":
             _add_polycall(h, rng)
+        elif kind == "latecall":
+            _add_latecall(h, rng)
     return h
+
+
+def _add_latecall(h, rng):
+    """A call that is given fewer wires than the function has inputs; the remaining value inputs are linked
+    afterwards through `Hugr.add_link` (the function port is where the signature puts it, however many ports
+    were connected when the call was made).  Module-rooted HUGRs only."""
+    from hugr import ops, tys
+    from hugr.build.dfg import Function
+
+    if not isinstance(h[h.root].op, ops.Module):
+        return
+    ins = [rng.choice([tys.Bool, tys.Unit, tys.USize()]) for _ in range(rng.randint(1, 3))]
+    f = h.add_node(ops.FuncDecl(f"late{rng.randrange(1000)}", tys.PolyFuncType([], tys.FunctionType(list(ins), list(ins)))), h.root)
+    fn = Function.new_nested(ops.FuncDefn(f"latecaller{rng.randrange(1000)}", list(ins), []), h, h.root)
+    k = rng.randrange(len(ins))
+    call = fn.call(f, *fn.inputs()[:k])
+    for i in range(k, len(ins)):
+        h.add_link(fn.input_node.out(i), call.inp(i))
+    if rng.random() < 0.5:
+        pre = fn.add_op(ops.Custom("pre", signature=tys.FunctionType([], []), extension="verif"))
+        fn.add_state_order(pre, call)
+    fn.set_outputs(*[call[i] for i in range(len(ins))])
 
 
 def _add_polycall(h, rng):
